@@ -17,7 +17,7 @@ import c13
 
 WRAPPER = 'spline.cpp'
 FUNCTIONS = ['Spline::operator()', 'Spline::findInterval', 'Spline::isZero', 'Spline::front', 'Spline::back', 'Spline copy construction', 'Spline::~Spline', 'Spline::checkOverlap', 'Spline::operator==',
-             'Spline::operator+', 'Spline::operator*(Spline)', 'Spline::operator*(T)', 'operator*(Position<1>,Spline)', 'operator*(Position<3>,Spline)', 'operator*(Derivative<1>,Spline)',
+             'Spline::operator+', 'Spline::operator*(Spline)', 'Spline::operator*(T)', 'linearCombination', 'operator*(Position<1>,Spline)', 'operator*(Position<3>,Spline)', 'operator*(Derivative<1>,Spline)',
              'SplineOperator::transform', 'BilinearForm::evaluate', 'ScalarProduct', 'LinearForm::evaluate', 'BSplineGenerator::generateBSplines<1> (const generator)', 'Support::calcUnion/calcIntersection',
              'Grid::operator==', 'std::shared_ptr copy/release', 'std::vector allocation/growth/copy (operator new, memmove)']
 F = lambda b: z3.fpBVToFP(b, z3.Float64())
@@ -164,6 +164,7 @@ QUICK = [
     mkcheck('scalarprod', [2, 1]),
     mkcheck('linform', [2]),
     mkcheck('scale', [2], out_bytes=56, delta=1, extra_scalar=True),
+    mkcheck('lincomb', [1, 1], out_bytes=56, delta=1, extra_scalar=True),
 ]
 THOROUGH = [
     mkcheck('eval', [2], has_x=True),
